@@ -695,8 +695,8 @@ class C12(Prop):
         "async_call's response-mode validation with `is`-comparison of supports_response; no `limit` parameter in 2025.1)",
         "CPython reference counting runs EvalFuncVar.__del__/weakref.finalize at rebinding/del time; the driver executes statements in "
         "a live context through a fresh AstEval on the context (what the Jupyter kernel does)",
-        "the reference semantics Life/ServicesSpec.v (Spec) is tied to the all-switches-off Model by the per-case Spec/Model checks and "
-        "by the refuted/agrees witnesses, not by a general refinement theorem (see notes/C12.md)",
+        "the reference semantics Life/ServicesSpec.v (Spec) is tied to the all-switches-off Model by C12_refines_legacy / "
+        "C12_refines_partial (see partial) and by the per-case Spec/Model checks",
     ]
     assumptions = [
         "scripts never `del` an unbound name and never alias a function object under a second name (generated cases do not)",
@@ -704,9 +704,12 @@ class C12(Prop):
         "operations are separated by quiescence (the driver settles the event loop after every operation)",
         "outgoing calls: keyword names are distinct (Python guarantees it)",
     ]
-    partial_note = ("the theorems are about the Model with all deviation switches off; the unchanged code has D21, D23, D26, D120, D121, "
-                    "D122, D123 on (each reproduced on the real code and refuted in Coq).  No general theorem links the all-off Model to "
-                    "the reference semantics used as Spec; C12_define_effective covers single definition statements in a started context")
+    partial_note = ("the theorems are about the Model with all deviation switches off; the unchanged code has D21, D23, D120, D121, D122, "
+                    "D123, D124 on (each reproduced on the real code and refuted in Coq; D26 repaired).  Refinement Model(all off) = reference "
+                    "Spec (same registry and same answering generation for every name after every operation sequence) is proved in full "
+                    "for the legacy subsystem (C12_refines_legacy) and, for the default subsystem, for every operation except a reload of "
+                    "everything / start-up that leaves more than one script file (C12_refines_partial, side condition ops_ok); that case - "
+                    "several contexts waiting for ctx.start() at once - is covered by C12_registry_invariant and by T2 only")
 
     def translate(self, ctx):
         return {"Gen/ServiceConsts.v": gen_consts()}
